@@ -1,0 +1,37 @@
+//go:build verif
+// +build verif
+
+package block
+
+import (
+	"github.com/ElrondNetwork/elrond-go/data/block"
+	"github.com/ElrondNetwork/elrond-go/hashing"
+	"github.com/ElrondNetwork/elrond-go/marshal"
+)
+
+// HeaderBodyCorrelationVerif exposes baseProcessor.checkHeaderBodyCorrelation and
+// baseProcessor.createMiniBlockHeaders on a bare baseProcessor that holds only the marshalizer and
+// the hasher (the only fields these two methods use). Verification builds only (build tag `verif`).
+type HeaderBodyCorrelationVerif struct {
+	bp *baseProcessor
+}
+
+// NewHeaderBodyCorrelationVerif builds the bare processor
+func NewHeaderBodyCorrelationVerif(marshalizer marshal.Marshalizer, hasher hashing.Hasher) *HeaderBodyCorrelationVerif {
+	return &HeaderBodyCorrelationVerif{
+		bp: &baseProcessor{
+			marshalizer: marshalizer,
+			hasher:      hasher,
+		},
+	}
+}
+
+// CheckHeaderBodyCorrelation calls the real checkHeaderBodyCorrelation
+func (c *HeaderBodyCorrelationVerif) CheckHeaderBodyCorrelation(miniBlockHeaders []block.MiniBlockHeader, body *block.Body) error {
+	return c.bp.checkHeaderBodyCorrelation(miniBlockHeaders, body)
+}
+
+// CreateMiniBlockHeaders calls the real createMiniBlockHeaders
+func (c *HeaderBodyCorrelationVerif) CreateMiniBlockHeaders(body *block.Body) (int, []block.MiniBlockHeader, error) {
+	return c.bp.createMiniBlockHeaders(body)
+}
